@@ -433,9 +433,21 @@ def replay_ce(ce):
         for i in range(k):
             funcs.pop('c%d' % i, None)
         want_log = wl
+    leaf_fail = None
+    ck_arg = ce.get('child_kind', 'Const')
+    if ck in ('VariableIdentifierRead', 'VariableIdentifierWrite'):
+        # leaf children make no calls; a failing read is realised by an unbound variable, a write target never fails
+        funcs = {}
+        want_log = []
+        failed = False
+        if ck == 'VariableIdentifierRead':
+            mask = ''.join('1' if outcomes.get(i) == 'ERR' else '0' for i in range(k))
+            ck_arg = 'VariableIdentifierRead:' + mask
+            if '1' in mask:
+                leaf_fail = 'unbound%d' % mask.index('1')
     funcs['x'] = 'log'
     entry = 'optree_mut' if ce['mutable'] else 'optree_ro'
-    text = replay.case_text('c', entry, '%s %d %s' % (op, k, ce.get('child_kind', 'Const')), funcs=list(funcs.items()), vars=[('x', ('Int', 1))])
+    text = replay.case_text('c', entry, '%s %d %s' % (op, k, ck_arg), funcs=list(funcs.items()), vars=[('x', ('Int', 1))])
     details = []
     bad = False
     for prof in ('dev', 'release'):
@@ -443,7 +455,9 @@ def replay_ce(ce):
         got_log = [n for n, a in out.get('log', []) if n != 'x']
         res_ = out.get('result')
         okk = got_log == want_log
-        if failed and ck == 'TupleArgs':
+        if leaf_fail is not None:
+            okk = okk and bool(res_ and res_[0] == 'Err' and res_[1] == 'VariableIdentifierNotFound' and res_[2] == ('String', leaf_fail))
+        elif failed and ck == 'TupleArgs':
             okk = okk and bool(res_ and res_[0] == 'Err' and res_[1] == 'CustomMessage')
         elif failed:
             okk = okk and bool(res_ and res_[0] == 'Err' and res_[1] == 'CustomMessage' and res_[3] == 'Error: fail:%s' % want_log[-1])
